@@ -29,8 +29,6 @@ def gen(run, tier):
     hs = []
     # ---- 1. narrowing extraction: exactly the in-range values succeed, with the exact value
     for t in INT_TARGETS:
-        if f"impl TryFrom<Value> for {t} " not in src and f"impl TryFrom<Value> for {t}\n" not in src:
-            continue
         body = f"""
         let v = inp.i128();
         let r = <{t} as TryFrom<Value>>::try_from(Value::Int(v));
@@ -47,8 +45,6 @@ def gen(run, tier):
         hs.append(Harness(f"narrow_{t}", body, meta={"conversion": f"{t}::try_from(Value::Int(v))", "domain": "every i128"}))
     # ---- 2. widening: From<T> for Value is exact, and the round trip returns the original
     for t in INT_SOURCES:
-        if f"impl From<{t}> for Value" not in src:
-            continue
         back = f"""
         let r = <{t} as TryFrom<Value>>::try_from(val);
         assert!(matches!(&r, Ok(y) if *y == x));
